@@ -231,13 +231,19 @@ CHECKS = {
              "REPLY/EXCEPTION of the tabled kind with the request's op id; at most one whole frame for any input; for every mutex-respecting "
              "schedule of any number of goroutines on one shared framed output the output is a permutation of whole own replies with nothing "
              "pending, and the mutex never wedges; FSimpleServer connection output = concatenation of each request's own reply; NATS/HTTP replies "
-             "are a function of the message alone; the lock discipline of processor.go is decided on data REGENERATED from source each build. "
+             "are a function of the message alone; the lock discipline of processor.go is decided on data REGENERATED from source each build; over BOUNDED "
+             "outputs (TMemoryOutputBuffer of any limit, FNatsServer's 1 MiB, HTTP payload limit) the write-by-write model of SendReply/trapError/"
+             "sendError/writeException and the unknown-method path leaves exactly the table by sizes - at most one flushed message, always a "
+             "well-formed REPLY/EXCEPTION with the request's op id, the normal reply iff it fits, RESPONSE_TOO_LARGE exactly when it does not, an "
+             "answer whenever the op-id-only exception fits, nothing (the caller times out) otherwise; the unbounded theorems are the instance "
+             "limit=None (refinement proved); C12's size model agrees with the byte model. "
              "Tie: real generated processors (lab) driven through Process, N goroutines on one shared output, FSimpleServer, FNatsServer (embedded "
-             "broker), HTTP handler; replies captured byte for byte and replayed by the Coq judge on the same definitions.",
-        note="Trusted: Coq kernel + vm_compute; translator/locksites.go; lab/harness as test equipment. Assumed: replies fit the buffer (C12), Go error texts and the "
-             "result struct's serialisation are inputs, binary protocol only, handlers neither panic nor block; a frame with undecodable headers ends its "
+             "broker, results/headers/error texts over 1 MiB), HTTP handler with payload limits, Process over NewTMemoryOutputBuffer(limit) around "
+             "every size involved with every transport call recorded; replies captured byte for byte and replayed by the Coq judge on the same definitions.",
+        note="Trusted: Coq kernel + vm_compute; translator/locksites.go; lab/harness as test equipment. Assumed: Go error texts, result serialisation and its "
+             "chunking are inputs; the bounded model is of the binary protocol (compact/JSON by oracle only); handlers neither panic nor block; a frame with undecodable headers ends its "
              "FSimpleServer connection (kept behaviour).",
-        technique="Coq executable model + interleaving invariants (linearisation by lock order) + regenerated lock-site table + trace-validation judge + independent oracle",
+        technique="Coq executable model + interleaving invariants (linearisation by lock order) + regenerated lock-site table + bounded-buffer refinement (size table = operational run) + trace-validation judge + independent oracle",
         design="5/C14"),
     "C15": dict(
         text="19 Coq theorems over an interleaving small-step model of the adapter transport lifecycle, the framing layer and the monitor runner, "
